@@ -79,29 +79,30 @@ def schemeSep : Str := [58, 47, 47]  -- "://"
 
 /-- the loop of `normalize` (context.rs, commit 51f269b): `.` dropped, `..` pops a kept
 segment that is neither empty nor `..`, everything else is kept.  `acc` = kept segments,
-reversed.  With `dropEmpty` an empty segment that is neither the first nor the last one is
-dropped as well (what the property needs; not in the code). -/
-def normalizeSegs (dropEmpty : Bool) : List Str → List Str → List Str
-  | [], acc => acc.reverse
-  | seg :: rest, acc =>
-    if seg == dotSeg then normalizeSegs dropEmpty rest acc
-    else if dropEmpty && seg.isEmpty && !acc.isEmpty && !rest.isEmpty then
-      normalizeSegs dropEmpty rest acc
+reversed; `first` = this is segment 0.  With `dropEmpty` (commit 3fe5f5c) an empty segment
+that is neither the first nor the last one is dropped as well. -/
+def normalizeSegs (dropEmpty : Bool) : List Str → Bool → List Str → List Str
+  | [], _, acc => acc.reverse
+  | seg :: rest, first, acc =>
+    if seg == dotSeg then normalizeSegs dropEmpty rest false acc
+    else if dropEmpty && seg.isEmpty && !first && !rest.isEmpty then
+      normalizeSegs dropEmpty rest false acc
     else if seg == dotdotSeg then
       match acc with
       | top :: acc' =>
-        if !top.isEmpty && top != dotdotSeg then normalizeSegs dropEmpty rest acc'
-        else normalizeSegs dropEmpty rest (seg :: acc)
-      | [] => normalizeSegs dropEmpty rest [seg]
-    else normalizeSegs dropEmpty rest (seg :: acc)
+        if !top.isEmpty && top != dotdotSeg then normalizeSegs dropEmpty rest false acc'
+        else normalizeSegs dropEmpty rest false (seg :: acc)
+      | [] => normalizeSegs dropEmpty rest false [seg]
+    else normalizeSegs dropEmpty rest false (seg :: acc)
 
-/-- `fn normalize(url)`: unchanged when it contains `://` or has no `.`/`..` segment -/
+/-- `fn normalize(url)`: unchanged when it contains `://`, or has no `.`/`..` segment and
+(since 3fe5f5c) no `//` -/
 def normalize (dropEmpty : Bool) (url : Str) : Str :=
   let segs := segments url
   if hasInfix url schemeSep then url
   else if segs.any (fun s => s == dotSeg || s == dotdotSeg)
       || (dropEmpty && (segs.drop 1).dropLast.any (·.isEmpty)) then
-    joinSegs (normalizeSegs dropEmpty segs [])
+    joinSegs (normalizeSegs dropEmpty segs true [])
   else url
 
 /-! ### the file-system side of the loader (parameter) -/
